@@ -163,6 +163,29 @@ def gen_poisson_tree(rng, n):
     return t
 
 
+def gen_proxavg(rng, n):
+    """ProximalAverage of 2-3 functionals with a prox (leaves, positively scaled leaves), weights None /
+    summing to one / not summing to one; possibly scaled or added to something"""
+    k = int(rng.integers(2, 4))
+    fs = []
+    for _ in range(k):
+        f = gen_leaf(rng, n)
+        if rng.random() < 0.3:
+            f = {"k": "mul", "c": dyscalar(rng, True), "side": "l", "f": f}
+        fs.append(f)
+    r = rng.random()
+    if r < 0.35:
+        al = None
+    elif r < 0.6:
+        al = [[0.25, 0.75], [0.5, 0.25, 0.25]][k - 2]
+    else:
+        al = [dyscalar(rng, True) for _ in range(k)]
+    t = {"k": "proxavg", "fs": fs, "alphas": al}
+    if rng.random() < 0.3:
+        t = {"k": "mul", "c": dyscalar(rng), "side": "r", "f": t}
+    return t
+
+
 def _gen_w(rng, m):
     return None if rng.random() < 0.4 else [float(v) for v in np.abs(common.dyadic(rng, (m,), bits=2, scale=2.0))]
 
@@ -300,6 +323,8 @@ def build(t, n, cplx, single=False):
         return build(t["f"], n, cplx, single) / t["c"]
     if k == "add":
         return build(t["f"], n, cplx, single) + build(t["g"], n, cplx, single)
+    if k == "proxavg":
+        return functional.ProximalAverage([build(f, n, cplx, single) for f in t["fs"]], alpha_list=t["alphas"])
     if k == "sepN":
         return functional.SeparableFunctional([build(f, m, cplx, single) for f, m in zip(t["fs"], t["sizes"])])
     if k in ("lossOp", "sqL2LossOp"):
@@ -354,6 +379,11 @@ def to_model(t, n):
         return {"k": "div", "c": f2b(t["c"]), "f": to_model(t["f"], n)}
     if k == "add":
         return {"k": "add", "f": to_model(t["f"], n), "g": to_model(t["g"], n)}
+    if k == "proxavg":
+        out = {"k": "proxavg", "fs": [to_model(f, n) for f in t["fs"]]}
+        if t["alphas"] is not None:
+            out["alphas"] = [f2b(a) for a in t["alphas"]]
+        return out
     if k == "sepN":
         fs, sizes = t["fs"], t["sizes"]
         if len(fs) == 1:
@@ -424,6 +454,9 @@ def margin(t, x):
     if k == "add":
         a, b = margin(t["f"], x), margin(t["g"], x)
         return min(a[0], b[0]), min(a[1], b[1])
+    if k == "proxavg":
+        ms = [margin(f, x) for f in t["fs"]]
+        return min(a[0] for a in ms), min(a[1] for a in ms)
     if k == "sepN":
         mk, mb, o = inf, inf, 0
         for f, m in zip(t["fs"], t["sizes"]):
